@@ -14,25 +14,29 @@ from .. import compare, env, kinds, rng
 from ..storage import Storage, make_ths
 
 RULE = {
-    'C02': 'seeded (class x direction, N per container, batch rule int/MB/table, frame kind, preprocess chain, word selection, precision, 1-3 run() calls); '
+    'C02': 'seeded (class x direction, N per container, batch rule int/MB/table, frame kind incl. unsorted / negative index lists, preprocess chain (list or single callable), word selection incl. permutations and repeats, '
+           'precision, convergence step for 30 % of the attacks, constant metadata byte, wide class values with the Value model, MIA with wide fractional samples and integer counter precision, 1-3 run() calls); '
            'non-trivial when more than one batch reached update(); distinct = distinct (class, direction, batch-length sequence, frame kind, chain, rule kind)',
     'C08': 'seeded C02 scenarios for attacks with convergence_step in {1, <b, =b, >b, not dividing N, >N}; non-trivial when >= 2 convergence columns; '
            'distinct = distinct (class, step, batch-length sequence, columns per run)',
     'C14': 'seeded template lifecycles: (attack kind, class list incl. shifted/permuted/gapped/automatic, trace length 1..6, precision, building/matching sizes, '
            'batch rules for both phases, 1-3 matching runs, run-before-build probe); distinct = distinct (kind, class list, L, precision, build batches, match batches)',
-    'C16': 'run-level: a run() over fake storage with one injected fault (storage error on metadata/samples of batch k, preprocess or selection function raising on batch k); '
-           'afterwards compute_results() and a run over the remaining rows are compared with one-shot twins',
+    'C16': 'run-level: a run() over fake storage with one injected fault (storage error on metadata/samples of batch k, preprocess or selection function raising on batch k, preprocess returning a shorter trace / '
+           'selection function returning an extra word on batch k >= 1 so that update() itself refuses); afterwards compute_results() and a run over the remaining rows are compared with one-shot twins, and with a '
+           'convergence step the convergence trace with a calibrated accepted-only twin',
 }
 SIM_TIME_UNIT = {'C02': 'storage fetch events', 'C08': 'storage fetch events', 'C14': 'storage fetch events', 'C16': 'storage fetch events'}
 ASSUMPTIONS = {
-    'C02': ['history is judged at the public update() boundary (recording subclass of the analysis class); extra storage probes are legal',
+    'C02': ['history is judged at the public update() boundary (recording subclass of the analysis class): values and shapes, not storage dtypes; extra storage probes are legal',
+            'expected rows and intermediate values are computed by the harness without scared\'s Container / SelectionFunction wrapper; the one-shot twin is the standalone distinguisher, not the analysis class',
             'exact regime: integer-valued traces through integer-preserving row-wise preprocesses, accumulators below 2^24/2^53 => bitwise',
             'automatic class sets only with the maximum already in the first batch; MIA with explicit bin edges',
             'storage is an in-process fake behind estraces.AbstractReader; real file readers are not exercised'],
     'C08': ['a column may match any observed batch boundary (full assignment search), so equal scores on different prefixes never alarm',
             'which columns close a run() is observed from outside as the column count after each run()'],
     'C14': ['reference model: class means, mean over declared classes of unbiased within-class covariance, pinv, score = 10 - sum d^T S^+ d / (n L); numpy float64',
-            'every declared class has >= 2 building traces and noise keeps the pooled covariance well conditioned',
+            'a declared class with fewer than 2 building traces contributes a zero matrix and still counts in the divisor ("average over declared classes"); its template is compared only if it has one trace; scores of candidates without building traces are not compared',
+            'a second build() may accumulate or start afresh (both accepted); a failed build is not a build (matching stays refused); noise keeps the pooled covariance well conditioned (cond <= 1e3, else inconclusive)',
             'tolerance 1e-8 (float64) / 1e-3 (float32) against the model; templates/covariance bitwise across batch rules in the exact regime'],
     'C16': ['faults are injected before update() is reached (storage, preprocess, selection function), as real storage/callback failures are'],
 }
